@@ -244,7 +244,11 @@ def anatomy(idx, name) -> Anatomy:
         if isinstance(st, ast.If):
             body_only_raise = all(isinstance(s, ast.Raise) for s in st.body) and not st.orelse
             if body_only_raise:
-                # the walrus in `if negs := ... > 0` may bind a name; harmless
+                # a guard: whoever gets past it had the condition false (recorded for C01.R6 / C11.R3)
+                try:
+                    tx.guards.append(symx.c_not(tx.cond(st.test)))
+                except symx.Unsupported:
+                    pass
                 continue
             # an `if` whose branches consist of in-place stores only: conditional overrides
             only_stores = all(isinstance(s, ast.Assign) and isinstance(s.targets[0], ast.Subscript) for s in st.body + st.orelse)
@@ -258,6 +262,9 @@ def anatomy(idx, name) -> Anatomy:
             r = tx.block([st])
             if r is not None:
                 raise AnalysisError(f"{name}: conditional return outside the modelled dialect")
+            continue
+        from .npflow import _is_validation_loop
+        if _is_validation_loop(st):
             continue
         raise AnalysisError(f"{name}: statement {type(st).__name__} at line {st.lineno} outside the dialect")
     # def-use bookkeeping for "computed from the final statistic" (C11.R3)
